@@ -251,6 +251,13 @@ impl Writer {
         checksum.inner_mut().get_mut().sync_all()?;
         let checksum = checksum.checksum();
 
+        // IMPORTANT: fsync folder on Unix, like the table writer does,
+        // otherwise the new blob file's directory entry may not survive a crash
+        // even though a version that references it has been persisted
+        if let Some(folder) = self.path.parent().filter(|p| !p.as_os_str().is_empty()) {
+            crate::file::fsync_directory(folder)?;
+        }
+
         Ok((metadata, checksum))
     }
 }
